@@ -76,6 +76,9 @@ type WorkloadCfg struct {
 	// Flush, when set, makes the agent run the drain/flush programme of C17 after
 	// the first FlushAt requests have been issued.
 	Flush *FlushCfg `json:"flush,omitempty"`
+	// Sweep: length of the initial sweep of the "slow lower level" family (0 otherwise); the drain/flush
+	// programme of such a case starts right after it.
+	Sweep int `json:"sweep,omitempty"`
 }
 
 // FlushCfg configures the drain/flush programme.
